@@ -68,6 +68,36 @@ pub fn monotone_siblings() -> Result<u64, Violation> {
             }
         }
     }
+    // an entry with two children whose in-order predecessor sits at the end of a long right
+    // spine: the pivot is created first, then n smaller names in ascending order (left child
+    // and a right spine of n-1), then a larger name; the pivot is removed, then the new top
+    for &version in &[3u8, 4u8] {
+        for &n in &[80usize, 150] {
+            let name = |i: usize| format!("/piv/a{:04}", i);
+            let mut ops = vec![Op::CreateStorage { p: raw("/piv".into()) }, Op::CreateStream { p: raw("/piv/m".into()), data: DataSpec { len: 33, seed: 1 } }];
+            for i in 0..n {
+                ops.push(Op::CreateStream { p: raw(name(i)), data: DataSpec { len: (i as u32 * 7) % 90, seed: i as u8 } });
+            }
+            ops.push(Op::CreateStream { p: raw("/piv/z".into()), data: DataSpec { len: 5, seed: 2 } });
+            ops.push(Op::RemoveStream { p: raw("/piv/m".into()) });
+            ops.push(Op::List { p: raw("/piv".into()) });
+            for i in (0..n).step_by(9) {
+                ops.push(Op::ReadAll { p: raw(name(i)) });
+            }
+            ops.push(Op::Reopen { strict: true });
+            ops.push(Op::RemoveStream { p: raw(name(n - 1)) });
+            ops.push(Op::Walk);
+            ops.push(Op::CreateStream { p: raw("/piv/m".into()), data: DataSpec { len: 40, seed: 3 } });
+            ops.push(Op::Exists { p: raw(name(n - 2)) });
+            let case = Case { version, max_buf: None, start: Start::Fresh, pool: vec![], ops };
+            let o = Oracles { dump_every: 0, final_reopen: true, checker_every: 1, ..Oracles::default() };
+            let out = run_case(&case, o, None);
+            count += 1;
+            if let Err(f) = out.result {
+                return Err(Violation { key: f.key, detail: format!("[pivot with a right spine of {} below its left child, V{}] {}", n, version, f.detail), case: serde_json::to_value(&case).unwrap_or(Value::Null), trace: out.trace.into_iter().rev().take(12).rev().collect() });
+            }
+        }
+    }
     Ok(count)
 }
 
